@@ -22,7 +22,13 @@ ops (1-D) and the tokens each one prints:
   R          return to the object the last copy was taken from                       -> nothing
 ops (2-D): I x y / O x y -> v vf vb;  gm gM Q P U C A R as above.
 A call that ends the process makes the whole line EXIT.
-The model prints `_` for the 1-D values (their evaluation is a parameter of the model); `_` is not compared."""
+The model prints `_` only for the 2-D Global_* values; `_` is not compared.
+Generator classes: plain tables (integer / logarithmic / random increments, 3..2000 points) with histories of far jumps, short correlated steps
+both ways, knots, the ladder of distances beside knots (1..1000 representable steps, 1e-16..1e-6 relative), domain ends and margins,
+verbatim repetitions of earlier arguments, copies; every constructor overload with unit arguments; tables on EXTREME scales (abscissae
+scaled by 1e-322..1e295 through the raw table or the unit argument, neighbouring doubles at a large offset, subnormal abscissae): there
+1-D histories use every kind of query when the spline coefficients are numbers and the index / prefactor / copy / Global_* calls otherwise
+(`index-only`), 2-D histories evaluate the bilinear value throughout."""
 import bisect, math, struct
 from vcheck import Case, hx, flist, tokf
 
@@ -204,18 +210,47 @@ def make_table(rng, n):
     return xs, ys
 
 
+_SIGN = 0x8000000000000000
+
+
+def ulp_step(x, m):
+    """the double m representable steps above (m < 0: below) x, clamped to the finite range"""
+    b = struct.unpack("<q", struct.pack("<d", x))[0]
+    i = b if b >= 0 else -(b & 0x7fffffffffffffff)
+    top = 0x7fefffffffffffff
+    i = max(-top, min(top, i + m))
+    return struct.unpack("<d", struct.pack("<Q", i if i >= 0 else ((-i) | _SIGN)))[0]
+
+
+ULP_LADDER = [1, 1, 2, 3, 4, 7, 10, 30, 100, 300, 1000]
+REL_LADDER = [1e-16, 3e-16, 1e-15, 1e-14, 1e-13, 1e-12, 1e-10, 1e-9, 1e-8, 1e-7, 1e-6]
+
+
+def ladder_point(rng, xs, k):
+    """an argument beside a knot of segment k, on either side, at a geometric ladder of distances: 1 .. 1000 representable
+    steps, or 1e-16 .. 1e-6 of the knot's magnitude / of the adjacent interval"""
+    e = xs[k] if rng.random() < 0.5 else xs[k + 1]
+    s = rng.choice([-1, 1])
+    r = rng.random()
+    if r < 0.5: return ulp_step(e, s * rng.choice(ULP_LADDER))
+    d = rng.choice(REL_LADDER)
+    if r < 0.75: return e + s * d * (xs[k + 1] - xs[k])
+    return e + s * d * abs(e)
+
+
 def point_in(rng, xs, k):
-    """an argument aimed at segment k: interior, at its knots, one ulp beside them"""
+    """an argument aimed at segment k: interior, at its knots, one ulp beside them, on the ladder of distances beside them"""
     n = len(xs); k = max(0, min(n - 2, k))
     r = rng.random()
-    if r < 0.55: x = xs[k] + (xs[k + 1] - xs[k]) * rng.random()
-    elif r < 0.70: x = xs[k]
-    elif r < 0.80: x = xs[k + 1]
-    elif r < 0.86: x = math.nextafter(xs[k], math.inf)
-    elif r < 0.92: x = math.nextafter(xs[k + 1], -math.inf)
-    elif r < 0.96: x = math.nextafter(xs[k], -math.inf)
-    else: x = math.nextafter(xs[k + 1], math.inf)
-    if zone(xs, x) == "exit": x = xs[k]      # one ulp beyond an end is tolerated unless the end interval is below an ulp's percent
+    if r < 0.50: x = xs[k] + (xs[k + 1] - xs[k]) * rng.random()
+    elif r < 0.62: x = xs[k]
+    elif r < 0.70: x = xs[k + 1]
+    elif r < 0.74: x = math.nextafter(xs[k], math.inf)
+    elif r < 0.78: x = math.nextafter(xs[k + 1], -math.inf)
+    elif r < 0.81: x = math.nextafter(xs[k], -math.inf)
+    elif r < 0.84: x = math.nextafter(xs[k + 1], math.inf)
+    else: x = ladder_point(rng, xs, k)
+    if not math.isfinite(x) or zone(xs, x) == "exit": x = xs[k]      # one ulp beyond an end is tolerated unless the end interval is below an ulp's percent
     return x
 
 
@@ -223,7 +258,8 @@ def edge_point(rng, xs, allow_exit=False):
     """domain ends, the tolerated one-per-cent zone and (only when allowed) just beyond it"""
     lo = rng.random() < 0.5
     h = (xs[1] - xs[0]) if lo else (xs[-1] - xs[-2]); e = xs[0] if lo else xs[-1]; s = -1.0 if lo else 1.0
-    t = rng.choice([0.0, rng.uniform(0, 0.0099), 0.005, 0.0099, 0.00999999, 0.01, 0.010001, rng.uniform(0.0101, 0.5), 3.0])
+    t = rng.choice([0.0, rng.uniform(0, 0.0099), 0.005, 0.0099, 0.00999999, 0.01, 0.010001, rng.uniform(0.0101, 0.5), 3.0,
+                    0.01 * (1 - rng.choice(REL_LADDER)), 0.01 * (1 + rng.choice(REL_LADDER)), rng.choice(REL_LADDER), 1e-300])
     x = e + s * t * h
     z = zone(xs, x)
     if z == "exit" and not allow_exit: x = e + s * 0.004 * h
@@ -240,12 +276,26 @@ def prefactor_op(rng):
     return ("U", [rng.choice(PF_MUL + [rng.uniform(0.1, 2)] * 3)])
 
 
-def gen_history(rng, xs, nops, with_exit, extra_pu=0.0):
-    """xs: the table AFTER the unit scaling.  extra_pu: additional rate of Set_Prefactor / Multiply calls"""
+def gen_history(rng, xs, nops, with_exit, extra_pu=0.0, index_only=False):
+    """xs: the table AFTER the unit scaling.  extra_pu: additional rate of Set_Prefactor / Multiply calls.
+    index_only: only the calls whose answers do not involve the spline coefficients (Locate, Global_*, domain, prefactor calls, copies):
+    for tables on scales where the Steffen coefficients leave the double range"""
     n = len(xs); ops = []; cur = rng.randrange(n - 1)
-    def arg(k): return point_in(rng, xs, k)
+    pool = []                      # arguments issued so far: repeated verbatim later in the history
+    def arg(k):
+        x = point_in(rng, xs, k)
+        if len(pool) < 64: pool.append(x)
+        else: pool[rng.randrange(64)] = x
+        return x
     while len(ops) < nops:
         if extra_pu and rng.random() < extra_pu: ops.append(prefactor_op(rng)); continue
+        if pool and rng.random() < 0.07:                                                    # identical arguments again: the last one, or earlier ones
+            last = next((a[0] for o, a in reversed(ops) if o in ("L", "I", "O", "D", "d")), pool[-1])
+            for x in ([last] * rng.randint(1, 3) if rng.random() < 0.5 else [rng.choice(pool) for _ in range(rng.randint(1, 3))]):
+                j = ref_index(xs, x); cur = j if j is not None else cur
+                if index_only or rng.random() < 0.6: ops.append(("L", [x]))
+                else: ops.append((rng.choice(["I", "O", "d"]), [x]))
+            continue
         mode = rng.random()
         if mode < 0.22: targets = [rng.randrange(n - 1)]                                   # far jump
         elif mode < 0.50:                                                                   # short steps upwards / same segment
@@ -265,7 +315,7 @@ def gen_history(rng, xs, nops, with_exit, extra_pu=0.0):
             x = edge_point(rng, xs) if k is None else arg(k)
             j = ref_index(xs, x); cur = j if j is not None else cur
             r = rng.random()
-            if r < 0.60: ops.append(("L", [x]))
+            if r < 0.60 or index_only: ops.append(("L", [x]))
             elif r < 0.75: ops.append((rng.choice(["I", "I", "I", "O"]), [x]))
             elif r < 0.85:
                 if rng.random() < 0.2: ops.append(("d", [x]))
@@ -286,7 +336,8 @@ def gen_history(rng, xs, nops, with_exit, extra_pu=0.0):
         if r < 0.7:
             x = edge_point(rng, xs, allow_exit=True)
             while zone(xs, x) != "exit": x = edge_point(rng, xs, allow_exit=True)
-            ops.append((rng.choice(["L", "I", "L", "O", "d"]), [x]))
+            ops.append((rng.choice(["L", "I", "L", "O", "d"]) if not index_only else "L", [x]))
+        elif index_only: ops.append(("L", [math.nan]))
         else:
             a = point_in(rng, xs, rng.randrange(n - 1)); b = point_in(rng, xs, rng.randrange(n - 1))
             if a == b: b = math.nextafter(a, math.inf)
@@ -329,7 +380,116 @@ def values_ok(xs, ys):
     ym = max(abs(v) for v in ys)
     if not math.isfinite(ym) or ym > 1e150: return False
     hmin = min(b - a for a, b in zip(xs, xs[1:])); xm = max(abs(xs[0]), abs(xs[-1]))
-    return ym / hmin ** 3 < 1e250 and ym * xm < 1e250 and (ym == 0.0 or ym * hmin > 1e-250)
+    h3 = hmin * hmin * hmin
+    if not (h3 > 1e-300 and math.isfinite(h3)): return False
+    if max(b - a for a, b in zip(xs, xs[1:])) > 1e70: return False          # pow(x - x_j, 4.0) stays finite
+    return ym / h3 < 1e250 and ym * xm < 1e250 and (ym == 0.0 or ym * hmin > 1e-250)
+
+
+# ---- tables on extreme scales (the property quantifies over all strictly increasing tables of doubles)
+def grid_ok_ext(xs):
+    """finite, strictly increasing, far enough from the overflow threshold that differences and the one-per-cent margins are finite"""
+    return len(xs) >= 3 and all(math.isfinite(v) for v in xs) and all(a < b for a, b in zip(xs, xs[1:])) and max(abs(xs[0]), abs(xs[-1])) < 1e300
+
+
+def scale_exponent(rng):
+    """decimal exponent of a scale on a ladder from moderate to the ends of the double range, both directions"""
+    e = rng.choice([rng.uniform(20, 80), rng.uniform(80, 160), rng.uniform(160, 240), rng.uniform(240, 300), rng.uniform(300, 322)])
+    return -e if rng.random() < 0.6 else min(e, 295.0)
+
+
+def make_table_ext(rng, n):
+    """returns (raw abscissae, x_dim or None, style): a table whose SCALED abscissae are tiny / huge (the scale either in the raw table
+    or in the unit argument), lie at |x| >> spacing (neighbouring doubles), or are subnormal numbers"""
+    for _ in range(20):
+        xs0, _ys = make_table(rng, n)
+        r = rng.random()
+        if r < 0.62:
+            sc = 10.0 ** scale_exponent(rng)
+            if rng.random() < 0.5: xs = [v * sc for v in xs0]; cand = (xs, None, "scale-raw")
+            else: xs = scaled(sc, xs0); cand = (xs0, sc, "scale-unit")
+        elif r < 0.84:      # knots a few representable steps apart at a large offset
+            x0 = rng.choice([-1.0, 1.0]) * rng.choice([1.0, 2.0 ** rng.randint(-40, 60), 10.0 ** rng.uniform(-5, 18), 10.0 ** scale_exponent(rng)])
+            if not math.isfinite(x0) or x0 == 0.0 or abs(x0) > 1e290: continue
+            xs = [x0]
+            for _k in range(n - 1): xs.append(ulp_step(xs[-1], rng.choice([1, 1, 1, 2, 3, 5, 16, 1000])))
+            cand = (xs, None, "neighbours")
+        else:               # subnormal abscissae (multiples of 2^-1074), possibly on both sides of zero
+            k = rng.choice([0, -rng.randint(0, 2 * n), -rng.randint(0, 10 ** 6), rng.randint(1, 10 ** 9)]); xs = []
+            for _k in range(n):
+                xs.append(k * 5e-324); k += rng.choice([1, 1, 1, 2, 3, 10, 100, 10 ** 4, 10 ** 7])
+            cand = (xs, None, "subnormal")
+        if len(xs) == n and grid_ok_ext(xs) and len(set(xs)) == len(xs): return cand
+    return ([float(k) * 1e-200 for k in range(n)], None, "scale-raw")
+
+
+def ext_values(rng, xs):
+    """function values for a table on an extreme scale: of order one, of the order of the spacing, or on their own extreme scale"""
+    n = len(xs); a = rng.uniform(0.1, 3); ph = rng.uniform(0, 6)
+    ys = [math.sin(a * k + ph) * (1 + 0.1 * k) + rng.choice([0.0, 0.0, rng.uniform(-1, 1)]) for k in range(n)]
+    r = rng.random()
+    if r < 0.4: return ys
+    sc = (xs[-1] - xs[0]) / n if r < 0.7 else 10.0 ** rng.uniform(-300, 140)
+    ys2 = [v * sc for v in ys]
+    return ys2 if all(math.isfinite(v) for v in ys2) and max(abs(v) for v in ys2) < 1e150 else ys
+
+
+def case_1d_ext(rng, n, nops, with_exit=False, tags=()):
+    xs0, xdim, style = make_table_ext(rng, n)
+    xs = scaled(xdim, xs0) if xdim is not None else xs0
+    ys0 = ext_values(rng, xs)
+    kind = rng.choice(["v", "v", "r"])
+    if xdim is None:
+        if rng.random() < 0.7: ctor, dims = f"{kind}0", [-1.0, -1.0]
+        else:
+            fd = rng.choice([-1.0, 1.0, 0.0, 2.0, 1e-3])
+            ctor, dims = f"{kind}2 {hx(rng.choice([-1.0, 1.0, 0.0, -3.0]))} {hx(fd)}", [-1.0, fd]
+    elif rng.random() < 0.5: ctor, dims = f"{kind}1 {hx(xdim)}", [xdim, -1.0]
+    else:
+        fd = rng.choice([-1.0, 1.0, 2.0, 1e-3, xdim if abs(math.log10(xdim)) < 140 else 1.0])
+        ctor, dims = f"{kind}2 {hx(xdim)} {hx(fd)}", [xdim, fd]
+    ys = scaled(dims[1], ys0)
+    full = grid_ok(xs) and values_ok(xs, ys)          # the spline coefficients and antiderivatives are numbers: every kind of query
+    ops = gen_history(rng, xs, nops, with_exit, extra_pu=0.05, index_only=not full)
+    line = f"h1 {ctor} {flist(xs0)} {flist(ys0)} {len(ops)} " + " ".join(op_text(o, a) for o, a in ops)
+    tg = ("1d", "extreme-scale", style) + (("values",) if full else ("index-only",)) + tuple(tags) + (("exit-last",) if with_exit else ())
+    return Case(line, tg)
+
+
+def case_2d_ext(rng, nx, ny, nops, with_exit=False):
+    """Interpolation_2D with one or both axes on an extreme scale (the bilinear value only involves ratios of differences)"""
+    which = rng.choice(["x", "y", "xy", "xy"])
+    def axis(n, ext):
+        if ext: return make_table_ext(rng, n)
+        return (make_table(rng, n)[0], None, "plain")
+    xs0, xdim, sx = axis(nx, "x" in which); ys0, ydim, sy = axis(ny, "y" in which)
+    xs = scaled(xdim, xs0) if xdim is not None else xs0; ys = scaled(ydim, ys0) if ydim is not None else ys0
+    fs = rng.choice([1.0, 1.0, 1.0, 10.0 ** rng.uniform(-300, 140)])
+    tab = [(math.sin(0.3 * i) * math.cos(0.2 * j) + 0.01 * i * j + rng.uniform(-0.1, 0.1)) * fs for i in range(len(xs0)) for j in range(len(ys0))]
+    kind = rng.choice(["g", "g", "t"]) if len(xs0) * len(ys0) <= 900 else "g"
+    fd = rng.choice([-1.0, -1.0, 1.0, 0.0, 2.0, 1e-3])
+    if xdim is None and ydim is None and rng.random() < 0.7: ctor, dims = f"{kind}0", [-1.0, -1.0, -1.0]
+    else:
+        dx = xdim if xdim is not None else rng.choice([-1.0, 1.0, 0.0]); dy = ydim if ydim is not None else rng.choice([-1.0, 1.0, -0.0])
+        if ydim is None and rng.random() < 0.3: ctor, dims = f"{kind}1 {hx(dx)}", [dx, -1.0, -1.0]
+        elif rng.random() < 0.5: ctor, dims = f"{kind}2 {hx(dx)} {hx(dy)}", [dx, dy, -1.0]
+        else: ctor, dims = f"{kind}3 {hx(dx)} {hx(dy)} {hx(fd)}", [dx, dy, fd]
+    assert scaled(dims[0], xs0) == xs and scaled(dims[1], ys0) == ys
+    hx_ = gen_history(rng, xs, nops, False, index_only=True); hy_ = gen_history(rng, ys, nops, False, index_only=True)
+    ax = [a[0] for o, a in hx_ if o == "L"]; ay = [a[0] for o, a in hy_ if o == "L"]
+    ops = []
+    for k in range(min(len(ax), len(ay))):
+        r = rng.random()
+        if r < 0.03: ops.append(prefactor_op(rng))
+        elif r < 0.07: ops.append((rng.choice(["C", "A", "R"]), []))
+        elif r < 0.09: ops.append((rng.choice(["gm", "gM", "Q"]), []))
+        ops.append((rng.choice(["I", "I", "I", "O"]), [ax[k], ay[k]]))
+    if with_exit:
+        x = edge_point(rng, xs, allow_exit=True)
+        while zone(xs, x) != "exit": x = edge_point(rng, xs, allow_exit=True)
+        ops.append(("I", [x, ys[0]]))
+    line = f"h2 {ctor} {flist(xs0)} {flist(ys0)} " + " ".join(hx(v) for v in tab) + f" {len(ops)} " + " ".join(op_text(o, a) for o, a in ops)
+    return Case(line, ("2d", "extreme-scale", "x:" + sx, "y:" + sy) + (("exit-last",) if with_exit else ()))
 
 
 def pick_ctor(rng, kinds, ndims, ok, units=None):
@@ -408,6 +568,24 @@ def generate(rng, tier):
         cs.append(case_1d(rng, rng.choice(sizes_small), rng.choice([8, 15, 25, 40]), units=rng.choice(["all", "all", "some"]), extra_pu=0.12, tags=("ctor-units",)))
     for _ in range(150 if big else 24):
         cs.append(case_2d(rng, rng.choice([3, 4, 7, 20]), rng.choice([3, 5, 9, 25]), rng.choice([10, 30, 60]), units=rng.choice(["all", "some"]), extra_pu=0.12))
+    # tables on extreme scales (tiny / huge, through the raw table or the unit argument), neighbouring doubles at a large offset, subnormal abscissae
+    for _ in range(700 if big else 70):
+        cs.append(case_1d_ext(rng, rng.choice(sizes_small + [100, 257]), rng.choice([15, 25, 40, 80, 150]), with_exit=rng.random() < 0.06))
+    for _ in range(400 if big else 40):
+        cs.append(case_2d_ext(rng, rng.choice([3, 4, 7, 20, 40]), rng.choice([3, 5, 9, 25]), rng.choice([10, 30, 100]), with_exit=rng.random() < 0.05))
+    # the same on a fixed ladder of scales, so that every run visits every band of the double range whatever the seed
+    for e in (-305, -280, -240, -200, -165, -130, -90, -50, 50, 110, 170, 230, 290):
+        sc = 10.0 ** e; n = rng.choice([12, 40, 90])
+        xs = [(k + 0.4 * (k % 2) - 0.2 * (k % 5)) * sc for k in range(-n // 3, n - n // 3)]
+        if not grid_ok_ext(xs): continue
+        ys = [math.cos(0.37 * k) for k in range(len(xs))]
+        ops = gen_history(rng, xs, 40, False, index_only=True)
+        cs.append(Case(f"h1 v0 {flist(xs)} {flist(ys)} {len(ops)} " + " ".join(op_text(o, a) for o, a in ops), ("1d", "extreme-scale", "scale-ladder", "index-only")))
+        m = 6; ys2 = [float(k * k) for k in range(m)]; tab = [math.sin(0.5 * i) + 0.3 * j * j for i in range(len(xs)) for j in range(m)]
+        hx_ = [a[0] for o, a in gen_history(rng, xs, 40, False, index_only=True) if o == "L"]
+        hy_ = [a[0] for o, a in gen_history(rng, ys2, 40, False, index_only=True) if o == "L"]
+        ops = [("I", [a, b]) for a, b in zip(hx_, hy_)]
+        cs.append(Case(f"h2 g0 {flist(xs)} {flist(ys2)} " + " ".join(hx(v) for v in tab) + f" {len(ops)} " + " ".join(op_text(o, a) for o, a in ops), ("2d", "extreme-scale", "scale-ladder")))
     for _ in range(1200 if big else 230):
         n = rng.choice(sizes_small + [100, 257, rng.randint(3, 300)])
         nops = rng.choice([10, 15, 25, 40, 80, rng.randint(10, 200)])
@@ -557,7 +735,7 @@ def predicates(c, io):
                 n = abs(ref_index(xs, a[1]) - ref_index(xs, a[0])) + 1
                 # both sums: n terms fl(fl(pf R) - fl(pf L)) resp. pf * fl(R - L), partial sums <= 2 n |pf| stem; plus the product pf * xb
                 slack = EPS * abs(pf) * stem * (2.0 * n * n + 10.0 * n) + 1e-300
-                if not (math.isnan(x) or math.isnan(xb)) and not abs(x - pf * xb) <= slack:
+                if not (math.isnan(x) or math.isnan(xb)) and x != pf * xb and not abs(x - pf * xb) <= slack:
                     out.append(("G:prefactor", f"{where}: integral {x!r} is not prefactor {pf!r} times the integral {xb!r} of a new object (difference {abs(x - pf * xb):.3g}, rounding allows {slack:.3g})"))
             elif o in ("m", "M", "gm", "gM"):
                 bmin, bmax = f[2], f[3]
@@ -577,6 +755,7 @@ def extra(ctx, rng):
     the simulation used for non-triviality and exit prediction against it."""
     import vcheck
     cs = [case_1d(rng, rng.choice([3, 5, 12, 40, 300, 2000]), rng.choice([20, 60, 200, 800])) for _ in range(60 if ctx["tier"] == "quick" else 400)]
+    cs += [case_1d_ext(rng, rng.choice([3, 5, 12, 40, 300]), rng.choice([20, 60, 200])) for _ in range(20 if ctx["tier"] == "quick" else 150)]
     lines = ["t1" + c.line[2:] for c in cs]
     outs = vcheck.run_exe(ctx["driver"], lines, ctx["work"], "trace")
     code = {"X": "0", "B": "1", "U": "2", "D": "3", "E": "4"}
